@@ -261,7 +261,7 @@ def run_config(chk, facts, cfg):
     # ---- C07-d ------------------------------------------------------------------------------------
     chk.rule("C07-d", "T-PURE: no call into std::time / std::env / rand / thread identity, no hasher whose output escapes a "
                       "container, no pointer-to-integer cast in write-fonts / klippa")
-    FORBID = re.compile(r"^(std::time::|std::env::|std::thread::current|std::thread::Thread|rand::|std::process::id|"
+    FORBID = re.compile(r"^(std::time::|std::env::|std::thread::current|std::thread::Thread|std::thread::available_parallelism|rand::|std::process::id|"
                         r"std::hash::random::RandomState::new|std::hash::random::DefaultHasher|<std::hash::random::RandomState as core::hash::BuildHasher>::hash_one|"
                         r"core::hash::BuildHasher::hash_one|std::time::SystemTime|std::time::Instant|"
                         # observations of where bytes sit in memory: the result of splitting / testing by address alignment
@@ -279,6 +279,37 @@ def run_config(chk, facts, cfg):
                     chk.ob("C07-d", f"{b.path} calls {t.callee}", allowed_dot, why="debug rendering to a .dot file (feature dot2), not font bytes",
                            key=f"forbid|{b.path}|{t.callee}", file=b.file, line=t.line, fn=b.path,
                            detail="observation of time / environment / randomness / memory address alignment in a compilation path")
+    # values that depend on the interleaving of threads: the result of an atomic read-modify-write is such a value as soon
+    # as it is used; the one confirmed use is ObjectId::next (C07-b shows the ids never reach the output)
+    def _mentions(o, l):
+        if isinstance(o, (list, tuple)):
+            if len(o) == 2 and o[0] == l and isinstance(o[1], (list, tuple)) and not isinstance(o[0], bool):
+                return True
+            return any(_mentions(x, l) for x in o)
+        return False
+    RMW = re.compile(r"^core::sync::atomic::Atomic\w*(::<[^>]*>)?::(fetch_\w+|swap|compare_exchange(_weak)?|compare_and_swap)$")
+    n_rmw = 0
+    for c in SCOPE:
+        if c not in facts.crates:
+            continue
+        for b in facts.all_bodies(c):
+            for bb, t in b.calls():
+                if not RMW.search(t.callee):
+                    continue
+                n_rmw += 1
+                d = t.dest[0] if t.dest and not t.dest[1] else None
+                used = d is None or any(_mentions(st[2], d) for _, _, st in b.stmts() if st[0] == "A") or \
+                    any(_mentions(getattr(blk.term, "args", None) or [], d) or (blk.term.kind == "switch" and _mentions(blk.term.d[1], d))
+                        for blk in b.blocks) or d == 0
+                confirmed = b.path == OID + "::next"
+                chk.ob("C07-d", f"{b.path} line {t.line}: result of {t.callee.split('::')[-1]} {'is used' if used else 'is not used'}",
+                       confirmed or not used, why="object identity only (C07-b)" if confirmed else None,
+                       key=f"atomic-rmw|{b.path}", file=b.file, line=t.line, fn=b.path,
+                       detail="the value returned by an atomic read-modify-write depends on how threads interleave; it is used in a "
+                              "compilation path (work distribution, ordering, numbering), so the bytes produced can differ between "
+                              "runs of the same input")
+    chk.stats[f"C07-d:{cfg}:atomic_rmw_sites"] = n_rmw
+    chk.floor("C07-d", "atomic read-modify-write sites inspected (ObjectId::next)", n_rmw, 1)
     from ..ptrtaint import PtrTaint
     pt = PtrTaint(facts, [c for c in facts.crates])
     for b, st, res in pt.run():
